@@ -85,9 +85,28 @@ def main():
             header = "\n".join(cpp.header_from_ast(generator=gen))
             source = "\n".join(cpp.source_from_ast(generator=gen))
             # the same definition generated a SECOND time in this process (module-level state must not leak into the text)
-            genb = cpp._generate_ekf_function_bodies("x/generated/formak/model.h", "generated", model, dict(pn), {a: dict(b) for a, b in sm.items()}, {a: dict(b) for a, b in sn.items()}, dict(cm), cfg)
-            header_b = "\n".join(cpp.header_from_ast(generator=genb))
-            source_b = "\n".join(cpp.source_from_ast(generator=genb))
+            # ... on a "slow machine": every reading of the clock is 7 s after the previous one while this second generation runs
+            import time as _time
+
+            _real = {nm: getattr(_time, nm) for nm in ("monotonic", "time", "perf_counter", "process_time")}
+            _tick = [0.0]
+
+            def _fast(base):
+                def f():
+                    _tick[0] += 7.0
+                    return base() + _tick[0]
+
+                return f
+
+            for nm, fn in _real.items():
+                setattr(_time, nm, _fast(fn))
+            try:
+                genb = cpp._generate_ekf_function_bodies("x/generated/formak/model.h", "generated", model, dict(pn), {a: dict(b) for a, b in sm.items()}, {a: dict(b) for a, b in sn.items()}, dict(cm), cfg)
+                header_b = "\n".join(cpp.header_from_ast(generator=genb))
+                source_b = "\n".join(cpp.source_from_ast(generator=genb))
+            finally:
+                for nm, fn in _real.items():
+                    setattr(_time, nm, fn)
             gen2 = cpp._generate_model_function_bodies("x/generated/formak/model.h", "generated", model, dict(cm), cfg)
             header2 = "\n".join(cpp.header_from_ast(generator=gen2))
             source2 = "\n".join(cpp.source_from_ast(generator=gen2))
